@@ -3,6 +3,11 @@ package main
 import (
 	"encoding/json"
 	"fmt"
+	"os"
+	"os/exec"
+	"runtime"
+	"strings"
+	"sync"
 	"unsafe"
 
 	"github.com/z7zmey/php-parser/pkg/position"
@@ -18,6 +23,7 @@ type c18Case struct {
 	Pool  string `json:"pool"`
 	Size  int    `json:"size"`
 	Count int    `json:"count"`
+	GC    bool   `json:"gc,omitempty"`
 }
 
 func c18Sizes(thorough bool) []int {
@@ -35,6 +41,20 @@ func c18Sizes(thorough bool) []int {
 		s = append(s, 255, 256, 257, 1023, 1024, 1025)
 	}
 	return s
+}
+
+func c18LongSizes(thorough bool) []int {
+	if thorough {
+		return []int{1, 2, 3, 4, 5, 7, 8, 16, 31, 32, 33, 64, 100, 127, 128, 129, 1024, 4096, 20000, 65536, 70000}
+	}
+	return []int{1, 2, 3, 5, 8, 16, 64, 1024, 20000, 70000}
+}
+
+func c18GCSizes(thorough bool) []int {
+	if thorough {
+		return []int{1, 2, 3, 4, 5, 6, 7, 8, 9, 15, 16, 17, 31, 32, 33, 64, 128, 1024}
+	}
+	return []int{1, 2, 3, 4, 8, 16, 1024}
 }
 
 func c18One(c *core.Ctx, cs c18Case) {
@@ -62,6 +82,7 @@ func c18One(c *core.Ctx, cs c18Case) {
 				return
 			}
 			seen[t] = k
+			c18GC(cs, k)
 			// distinct storage, not only distinct addresses
 			for _, o := range got[max0(len(got)-2):] {
 				if overlap(unsafe.Pointer(o), unsafe.Sizeof(*o), unsafe.Pointer(t), unsafe.Sizeof(*t)) {
@@ -74,7 +95,8 @@ func c18One(c *core.Ctx, cs c18Case) {
 			t.Value = []byte(vals[k])
 			t.Position = &position.Position{StartPos: k}
 			got = append(got, t)
-			for j, o := range got {
+			for j, o := range got[c18From(cs, k):] {
+				j += c18From(cs, k)
 				if int(o.ID) != 1000+j || string(o.Value) != vals[j] || o.Position == nil || o.Position.StartPos != j {
 					c.Report(key("earlier object changed by a later Get/write"), fmt.Sprintf("size=%d object #%d after request #%d", cs.Size, j+1, k+1), cs)
 					return
@@ -106,6 +128,7 @@ func c18One(c *core.Ctx, cs c18Case) {
 				return
 			}
 			seen[t] = k
+			c18GC(cs, k)
 			for _, o := range got[max0(len(got)-2):] {
 				if overlap(unsafe.Pointer(o), unsafe.Sizeof(*o), unsafe.Pointer(t), unsafe.Sizeof(*t)) {
 					c.Report(key("objects overlap in memory"), fmt.Sprintf("size=%d request #%d", cs.Size, k+1), cs)
@@ -114,7 +137,8 @@ func c18One(c *core.Ctx, cs c18Case) {
 			}
 			*t = position.Position{StartLine: k, EndLine: -k, StartPos: 7 * k, EndPos: 7*k + 1}
 			got = append(got, t)
-			for j, o := range got {
+			for j, o := range got[c18From(cs, k):] {
+				j += c18From(cs, k)
 				if (*o != position.Position{StartLine: j, EndLine: -j, StartPos: 7 * j, EndPos: 7*j + 1}) {
 					c.Report(key("earlier object changed by a later Get/write"), fmt.Sprintf("size=%d object #%d after request #%d", cs.Size, j+1, k+1), cs)
 					return
@@ -129,6 +153,199 @@ func c18One(c *core.Ctx, cs c18Case) {
 				c.Report(key("write through one object visible through another"), fmt.Sprintf("size=%d object #%d", cs.Size, j+1), cs)
 				return
 			}
+		}
+	}
+}
+
+// c18GC: "stay valid for the lifetime of the pool" includes garbage collections: the collector runs in the
+// middle of a history (just after a block boundary, just before one, and at a few fixed requests), so a pool that
+// keeps its blocks reachable only through something the collector does not follow (uintptr, a recycled
+// sync.Pool entry, a finalizer) loses or recycles objects that the read-back then finds changed.
+func c18GC(cs c18Case, k int) {
+	if !cs.GC {
+		return
+	}
+	if r := k % cs.Size; (r == 0 || r == cs.Size-1) && k/cs.Size <= 3 || k == 1 || k == cs.Count-1 {
+		runtime.GC()
+	}
+}
+
+// c18From: in long histories (many blocks) every object is read back after each of the first 3*size+2
+// requests and after every request that starts or ends a block; in between only the objects of the last
+// three blocks are (the cost of a full read-back after every request is quadratic).
+func c18From(cs c18Case, k int) int {
+	if cs.Count <= 4*cs.Size+2 && cs.Size <= 4200 || k == cs.Count-1 || k%8192 == 0 {
+		return 0 // the short histories: everything after every request
+	}
+	if k <= 3*cs.Size+2 && cs.Size <= 128 {
+		return 0
+	}
+	if r := k % cs.Size; (r == 0 || r == cs.Size-1) && k/cs.Size <= 64 {
+		return 0
+	}
+	w := 3*cs.Size + 3
+	if w > 48 {
+		w = 48
+	}
+	return max0(k - w)
+}
+
+// c18Two: histories over two pools that live at the same time, every interleaving word w over {A, B} of the
+// given length (bit i of w: which pool serves request i). Objects must be distinct across the pools as well,
+// and every object keeps its value: a pool that draws its blocks from anything shared with other pools (a
+// package-level slab, a free list) shows up here without any concurrency.
+type c18TwoCase struct {
+	Pool         string `json:"pool"`
+	SizeA, SizeB int
+	Len          int    `json:"len"`
+	Word         uint32 `json:"word"`
+}
+
+func c18Two(c *core.Ctx, cs c18TwoCase) {
+	key := func(what string) string { return fmt.Sprintf("%s pool: two pools alive at once: %s", cs.Pool, what) }
+	defer func() {
+		if r := recover(); r != nil {
+			c.Report(key("panic in Get"), fmt.Sprintf("%+v: %v", cs, r), cs)
+		}
+	}()
+	type obj struct {
+		p unsafe.Pointer
+		v int
+	}
+	var got []obj
+	seen := map[unsafe.Pointer]int{}
+	read := func(o obj) int {
+		if cs.Pool == "token" {
+			return int((*token.Token)(o.p).ID)
+		}
+		return (*position.Position)(o.p).StartPos
+	}
+	var ta, tb *token.Pool
+	var pa, pb *position.Pool
+	if cs.Pool == "token" {
+		ta, tb = token.NewPool(cs.SizeA), token.NewPool(cs.SizeB)
+	} else {
+		pa, pb = position.NewPool(cs.SizeA), position.NewPool(cs.SizeB)
+	}
+	for k := 0; k < cs.Len; k++ {
+		second := cs.Word>>uint(k)&1 == 1
+		var p unsafe.Pointer
+		if cs.Pool == "token" {
+			pl := ta
+			if second {
+				pl = tb
+			}
+			t := pl.Get()
+			if t == nil {
+				c.Report(key("Get returned nil"), fmt.Sprintf("%+v request #%d", cs, k+1), cs)
+				return
+			}
+			t.ID = token.ID(100 + k)
+			p = unsafe.Pointer(t)
+		} else {
+			pl := pa
+			if second {
+				pl = pb
+			}
+			t := pl.Get()
+			if t == nil {
+				c.Report(key("Get returned nil"), fmt.Sprintf("%+v request #%d", cs, k+1), cs)
+				return
+			}
+			t.StartPos = 100 + k
+			p = unsafe.Pointer(t)
+		}
+		c.P.Trans++
+		if j, dup := seen[p]; dup {
+			c.Report(key("same object handed out twice"), fmt.Sprintf("%+v requests #%d and #%d", cs, j+1, k+1), cs)
+			return
+		}
+		seen[p] = k
+		got = append(got, obj{p, 100 + k})
+		for j, o := range got {
+			if read(o) != o.v {
+				c.Report(key("earlier object changed by a later Get/write"), fmt.Sprintf("%+v object #%d after request #%d", cs, j+1, k+1), cs)
+				return
+			}
+		}
+	}
+}
+
+// poolRacePass (body of `check poolrace`, run in the -race binary): goroutines that each own their pools, free-running.
+// Complements the histories above, which cannot see an unsynchronised access to something the pools share.
+func poolRacePass() int {
+	const G = 12
+	var wg sync.WaitGroup
+	var mu sync.Mutex
+	owner := map[unsafe.Pointer]int{}
+	bad := 0
+	for g := 0; g < G; g++ {
+		wg.Add(1)
+		go func(g int) {
+			defer wg.Done()
+			for round := 0; round < 3; round++ {
+				for _, size := range []int{1, 2, 3, 8, 64, 1024} {
+					tp, pp := token.NewPool(size), position.NewPool(size)
+					n := 3*size + 40
+					ts := make([]*token.Token, n)
+					ps := make([]*position.Position, n)
+					for k := 0; k < n; k++ {
+						ts[k], ps[k] = tp.Get(), pp.Get()
+						ts[k].ID = token.ID(g*100000 + k)
+						ps[k].StartPos = g*100000 + k
+					}
+					mu.Lock()
+					for k := 0; k < n; k++ {
+						if int(ts[k].ID) != g*100000+k || ps[k].StartPos != g*100000+k {
+							bad++
+						}
+						for _, p := range []unsafe.Pointer{unsafe.Pointer(ts[k]), unsafe.Pointer(ps[k])} {
+							if o, dup := owner[p]; dup && o != g*10+round {
+								bad++
+							}
+							owner[p] = g*10 + round
+						}
+					}
+					mu.Unlock()
+					runtime.KeepAlive(ts)
+					runtime.KeepAlive(ps)
+				}
+			}
+			// the objects stay reachable through ts/ps of the last round only; earlier addresses may be
+			// recycled by the allocator, hence the (goroutine, round) owner tag
+		}(g)
+	}
+	wg.Wait()
+	fmt.Printf("poolrace: %d goroutines x 3 rounds x 6 block sizes x 2 pools, %d objects shared between pools or changed\n", G, bad)
+	if bad > 0 {
+		return 1
+	}
+	return 0
+}
+
+func runPoolRacePass(c *core.Ctx) {
+	bin := os.Getenv("VERIF_RACE_BIN")
+	if bin == "" {
+		c.Note("race pass skipped: no -race binary (VERIF_RACE_BIN unset)")
+		return
+	}
+	cmd := exec.Command(bin, "poolrace")
+	cmd.Env = append(os.Environ(), "GORACE=halt_on_error=0 exitcode=0", "GOMAXPROCS=16", "VERIF_WORKER=")
+	out, err := cmd.CombinedOutput()
+	s := string(out)
+	c.Stat("race_pass_runs", 1)
+	if strings.Contains(s, "WARNING: DATA RACE") {
+		i := strings.Index(s, "WARNING: DATA RACE")
+		c.Report("pools owned by different goroutines: data race reported by the race detector (free-running pass): "+raceSite(s[i:]), clipS(s[i:], 900), nil)
+	}
+	if i := strings.Index(s, "poolrace:"); i >= 0 {
+		c.Note(strings.TrimSpace(s[i:]))
+		if !strings.Contains(s[i:], " 0 objects shared") {
+			c.Report("pools owned by different goroutines hand out the same object or lose a written value (free-running pass)", clipS(s[i:], 300), nil)
+		}
+	} else if err != nil || true {
+		if !strings.Contains(s, "WARNING: DATA RACE") {
+			c.Note("pool race pass gave no summary: " + clipS(s, 300))
 		}
 	}
 }
@@ -150,7 +367,7 @@ func init() {
 		Prop: "C18", Level: "exploration", Exhaust: true, QuickSecs: 100, ThorSecs: 900,
 		Rule: "every (pool, block size, request count) with size in the tier's set and count in 0..3*size+2 is one history Get^count on the real pool (run as one chain per size, the oracle evaluated after every Get, i.e. on every prefix history); " +
 			"after every Get: non-nil, pointer not seen before, no storage overlap with the previous objects, a unique value is written and all earlier objects are read back; " +
-			"then writes in reverse order. non-trivial = histories that cross at least one block boundary (count > size); distinct by (pool,size,count)",
+			"then writes in reverse order. Plus: long histories (150 000 requests, thorough 1 500 000) over small and very large blocks with the duplicate test on every request and full read-backs at block boundaries of the first 64 blocks and every 8192 requests; the histories of some sizes with garbage collections in the middle; every interleaving word of length 10 (thorough 14) over two pools alive at once, all size pairs in 1..4 (objects distinct across pools too); a free-running -race pass with 12 goroutines owning their pools (sampling, complements, never decides). non-trivial = histories that cross at least one block boundary (count > size); distinct by (pool,size,count)",
 		Assume: []string{"the pool files are built through the overlay that only turns `const DefaultBlockSize` into a var; Get/NewPool are the tree's own code"},
 		Run: func(c *core.Ctx) {
 			for _, pool := range []string{"token", "position"} {
@@ -161,7 +378,7 @@ func init() {
 						continue
 					}
 					count := 3*size + 2
-					cs := c18Case{pool, size, count}
+					cs := c18Case{pool, size, count, false}
 					c18One(c, cs)
 					c.P.Evals += int64(count) // every prefix history Get^0 .. Get^count was checked
 					c.P.States += int64(count) + 1
@@ -171,11 +388,68 @@ func init() {
 					c.Max("max_block_boundaries_crossed", int64((count-1)/size))
 					c.Sample(cs)
 				}
+				// long histories over small blocks (hundreds to thousands of block boundaries), and the same
+				// short histories with garbage collections in the middle
+				for _, size := range c18LongSizes(c.Thorough()) {
+					if !c.Next() {
+						continue
+					}
+					count := 150000
+					if c.Thorough() {
+						count = 1500000
+					}
+					cs := c18Case{pool, size, count, false}
+					c18One(c, cs)
+					c.P.Evals += int64(count)
+					c.P.States += int64(count) + 1
+					c.Nontrivial(fmt.Sprintf("%s/%d/long%d", pool, size, count))
+					c.Max("max_block_boundaries_crossed", int64((count-1)/size))
+				}
+				for _, size := range c18GCSizes(c.Thorough()) {
+					if !c.Next() {
+						continue
+					}
+					count := 4*size + 2
+					cs := c18Case{pool, size, count, true}
+					c18One(c, cs)
+					c.P.Evals += int64(count)
+					c.P.States += int64(count) + 1
+					c.Stat("histories_with_garbage_collections", 1)
+					c.Nontrivial(fmt.Sprintf("%s/%d/gc%d", pool, size, count))
+				}
+				// two pools alive at once: every interleaving word of the tier's length, all pairs of sizes 1..4
+				n := 10
+				if c.Thorough() {
+					n = 14
+				}
+				for sa := 1; sa <= 4; sa++ {
+					for sb := 1; sb <= 4; sb++ {
+						for w := uint32(0); w < 1<<uint(n); w++ {
+							if !c.Next() {
+								continue
+							}
+							c18Two(c, c18TwoCase{pool, sa, sb, n, w})
+							c.P.States += int64(n)
+							c.Stat("two_pool_interleavings", 1)
+							if w != 0 && w != 1<<uint(n)-1 {
+								c.Nontrivial(fmt.Sprintf("%s/two/%d/%d/%d", pool, sa, sb, w))
+							}
+						}
+					}
+				}
+			}
+			if c.Shard == 0 {
+				runPoolRacePass(c)
 			}
 		},
 		Replay: func(c *core.Ctx, raw json.RawMessage) {
+			var two c18TwoCase
+			if json.Unmarshal(raw, &two) == nil && two.SizeA > 0 {
+				c18Two(c, two)
+				return
+			}
 			var cs c18Case
-			if json.Unmarshal(raw, &cs) == nil {
+			if json.Unmarshal(raw, &cs) == nil && cs.Size > 0 {
 				c18One(c, cs)
 			}
 		},
